@@ -254,6 +254,21 @@ def unify(a, b):
     return None
 
 
+def _may_be_none(v):
+    """uninterpreted `v is None` for a value whose declared type is (or wraps) an opaque sort; None if the type excludes None"""
+    from .types import OpaqueT
+    if isinstance(v.ty, OpaqueT):
+        return z3.Function("isnone_%s" % v.ty.name, v.ty.sort(), z3.BoolSort())(v.t)
+    if isinstance(v.ty, UnionT):
+        parts = []
+        for tag, t in v.ty.alts.items():
+            if isinstance(t, OpaqueT):
+                parts.append(z3.And(v.ty.is_(v.t, tag), z3.Function("isnone_%s" % t.name, t.sort(), z3.BoolSort())(v.ty.val(v.t, tag))))
+        if parts:
+            return z3.Or(*parts)
+    return None
+
+
 def eq(a, b):
     a, b = lift(a), lift(b)
     if isinstance(a, PyTup) and isinstance(b, PyTup):
@@ -268,6 +283,12 @@ def eq(a, b):
         ta = a.ty if isinstance(a, V) else None
         tb = b.ty if isinstance(b, V) else None
         if ta is not None and tb is not None:
+            # ... except that an opaque sort stands for "any python object": whether such a value is None is not known
+            for x, y in ((a, b), (b, a)):
+                if x.ty is NONE:
+                    m = _may_be_none(y)
+                    if m is not None:
+                        return m
             return z3.BoolVal(False)
         raise Unsupported("equality between %r and %r" % (a, b))
     if u[0].ty is NONE:
